@@ -267,6 +267,7 @@ fn greedy_from(trie: &toktrie::TokTrie, text: &[u8], first_len: usize) -> Option
 
 /// feed tokens through mask + commit; Err(position, reason)
 fn feed(m0: &llguidance::Matcher, toks: &[u32]) -> Result<(), (usize, String)> {
+    crate::watchdog::beat();
     let mut m = m0.clone();
     for (i, t) in toks.iter().enumerate() {
         if m.is_stopped() {
